@@ -73,3 +73,12 @@ impl SliceConstructor {
         Ok(None)
     }
 }
+
+#[cfg(feature = "verif")]
+impl SliceConstructor {
+    /// Canonical read-only dump of the constructor state (verification hook).
+    pub fn verif_dump(&self) -> String {
+        let bits: String = self.received.iter().map(|b| if *b { '1' } else { '0' }).collect();
+        format!("{}/{}:{}:{}", self.num_received_slices, self.num_slices, bits, self.sliced_data.len())
+    }
+}
